@@ -629,8 +629,18 @@ class HostConnectionPool(object):
 
         log.debug("Initializing new connection pool for host %s", self.host)
         core_conns = session.cluster.get_core_connections_per_host(host_distance)
-        self._connections = [session.cluster.connection_factory(host.endpoint, on_orphaned_stream_released=self.on_orphaned_stream_released)
-                             for i in range(core_conns)]
+        self._connections = []
+        try:
+            for i in range(core_conns):
+                if session.is_shutdown:
+                    # do not start further connection attempts for a session that is gone
+                    raise ConnectionException("Session was shut down while the pool for %s was being created" % (host,), host)
+                self._connections.append(
+                    session.cluster.connection_factory(host.endpoint, on_orphaned_stream_released=self.on_orphaned_stream_released))
+        except Exception:
+            for conn in self._connections:
+                conn.close()
+            raise
 
         self._keyspace = session.keyspace
         if self._keyspace:
